@@ -24,6 +24,9 @@ lookup_git_sha is multi-valued in every backend; both forms of an object handed 
 reference) reach the kind dispatch; in a backend with a committed and a pending index store every method that looks
 keys up in one looks them up in the other (transitively through helpers of the class); the digest that names the file
 a write group produces is fed exactly where a node is added to the pending store.
+Third round: abort-forgets-uncommitted — every self attribute the non-lifecycle methods of a map class change is reset by its
+abort_write_group; rows-unique-by-owner-only — the sqlite schema script has no uniqueness on blobs or trees narrower than
+(fileid, revid).
 Does not decide: equality of the answers themselves (values stored by each backend).
 """
 ASSUMPTIONS = ["backends are compared through their class definitions; registration in the format registry is not part of the rule"]
@@ -214,8 +217,64 @@ def run(ctx):
         rf = repo.resolve_method(rel, q, "finish")
         ctx.check("updater-finish", f"{rel}:{q}.finish", rf is not None and (rf[0], rf[1]) != (CF, "CacheUpdater"), f"{q} implements finish()")
 
+    # ---- an aborted write group is forgotten: whatever the adders change on the map is reset by abort_write_group --------
+    MUT = {"add", "update", "append", "extend", "insert", "setdefault", "pop", "remove", "discard", "clear", "add_node", "add_nodes"}
+
+    def _muts(f):
+        out = set()
+        for n in ast.walk(f):
+            if isinstance(n, (ast.Assign, ast.AugAssign)):
+                for t in n.targets if isinstance(n, ast.Assign) else [n.target]:
+                    if isinstance(t, ast.Attribute) and norm(t.value) == "self":
+                        out.add(t.attr)
+                    if isinstance(t, ast.Subscript) and isinstance(t.value, ast.Attribute) and norm(t.value.value) == "self":
+                        out.add(t.value.attr)
+            if isinstance(n, ast.Call) and call_attr(n) in MUT and (call_recv(n) or "").startswith("self.") and (call_recv(n) or "").count(".") == 1:
+                out.add(call_recv(n)[5:])
+        return out
+
+    n_abort = 0
+    for cname, cls in repo.module(CF).classes().items():
+        ms = {b.name: b for b in cls.body if isinstance(b, ast.FunctionDef)}
+        if "abort_write_group" not in ms or not _muts(ms["abort_write_group"]):
+            continue
+        n_abort += 1
+        lifecycle = {"__init__", "start_write_group", "commit_write_group", "abort_write_group", "repack"}
+        during = {}
+        for mname, f in ms.items():
+            if mname not in lifecycle:
+                for a in _muts(f):
+                    during.setdefault(a, mname)
+        kept = sorted(a for a in during if a not in _muts(ms["abort_write_group"]))
+        ctx.check("abort-forgets-uncommitted", f"{CF}:{cname}.abort_write_group", not kept, f"every attribute the adders of {cname} change ({sorted(during)}) is reset by abort_write_group", construct=str([(a, during[a]) for a in kept]), message=f"{cname}.{during[kept[0]] if kept else ''} records state in self.{kept[0] if kept else ''} that abort_write_group does not reset: what was offered during an aborted write group still counts as known, a retry on the same map skips it and the index backend then answers KeyError where the dict and sqlite backends answer")
+    ctx.require(n_abort >= 1, f"{CF}: no map class with a resetting abort_write_group found (hand-confirmed: IndexGitShaMap)")
+    # ---- sqlite schema: the only uniqueness on blobs is the bzr-side key ------------------------------------------------
+    import re as _re
+
+    fsq = repo.func(CF, "SqliteGitShaMap.__init__")
+    script = " ".join(n.value for n in ast.walk(fsq) if isinstance(n, ast.Constant) and isinstance(n.value, str) and "create table" in n.value.lower())
+    ctx.require("blobs" in script, f"{CF}:SqliteGitShaMap.__init__: schema script not found")
+    uniq = [(m.group(1), tuple(c.strip() for c in m.group(2).split(","))) for m in _re.finditer(r"create\s+unique\s+index\s+(?:if\s+not\s+exists\s+)?\w+\s+on\s+(\w+)\s*\(([^)]*)\)", script, _re.I)]
+    for table in ("blobs", "trees"):
+        tbl = _re.search(r"create\s+table\s+(?:if\s+not\s+exists\s+)?" + table + r"\s*\((.*?)\)\s*;", script, _re.I | _re.S)
+        ctx.require(tbl is not None, f"{CF}:SqliteGitShaMap.__init__: table {table} not found in the schema script")
+        cols_src, depth, cur = [], 0, ""
+        for ch in tbl.group(1):
+            depth += ch == "("
+            depth -= ch == ")"
+            if ch == "," and depth == 0:
+                cols_src.append(cur)
+                cur = ""
+            else:
+                cur += ch
+        cols_src.append(cur)
+        col_uniq = [c.split()[0] for c in cols_src if c.strip() and _re.search(r"\b(unique|primary\s+key)\b", c, _re.I)]
+        narrow = [f"unique index on {table}({', '.join(cols)})" for t, cols in uniq if t == table and not {"fileid", "revid"} <= set(cols)] + [f"column {c} unique" for c in col_uniq]
+        ctx.check("rows-unique-by-owner-only", f"{CF}:SqliteGitShaMap.__init__[{table}]", not narrow and any(t == table and set(cols) == {"fileid", "revid"} for t, cols in uniq), f"the {table} table is unique on (fileid, revid) only — two entries with the same content keep their own rows, as in the dict backend", construct="; ".join(narrow), message=f"the sqlite schema makes {table} unique by {narrow}: recording a second entry with the same content (`replace into {table}`) deletes the first owner's row, the lookup by (file id, revision) raises KeyError for it while the dict backend answers")
 
 MUTANTS = [
+    Mutant("sqlite blobs unique by content hash", CF, "        create index if not exists blobs_sha1 on blobs(sha1);\n", "        create unique index if not exists blobs_sha1 on blobs(sha1);\n", expect="rows-unique-by-owner-only"),
+    Mutant("index map remembers keys across an abort", CF, "            self._name.update(b\"\\0\".join(key) + b\"\\0\" + value + b\"\\n\")\n            return False\n", "            self._name.update(b\"\\0\".join(key) + b\"\\0\" + value + b\"\\n\")\n            self.__dict__.setdefault('_seen', set())\n            self._seen.add(key)\n            return False\n", expect="abort-forgets-uncommitted"),
     Mutant("index file named after everything offered", CF, "        if hexsha is not None:\n            if type == b\"commit\":\n", "        if hexsha is not None:\n            self._name.update(hexsha)\n            if type == b\"commit\":\n", expect="file-name-covers-content"),
     Mutant("added nodes no longer enter the file name", CF, "            self._name.update(b\"\\0\".join(key) + b\"\\0\" + value + b\"\\n\")\n", "", expect="file-name-covers-content"),
     Mutant("index existence check asks only the pending builder", CF, "        try:\n            self._get_entry(key)\n        except KeyError:\n            self._builder.add_node(key, value)\n", "        try:\n            if next(self._builder.iter_entries([key]), None) is None:\n                raise KeyError(key)\n        except KeyError:\n            self._builder.add_node(key, value)\n", expect="stores-read-together"),
